@@ -117,6 +117,24 @@ func c02Workspace(c *core.C) (*gen.Schema, *wsView) {
 	c01Decorate(c, s)
 	c11Dirty(c, s)
 	s.Modules = append(s.Modules, c02CycleModule())
+	// enums with aliases: several names for one number (their names are kept in maps by the breaking rules); two of
+	// them so that some alias is renamed in the edited copy (c02Do)
+	n := 0
+	for _, f := range s.AllFiles() {
+		if n < 3 && (f.Syntax == "proto3" || f.Syntax == "proto2") && len(f.Messages) > 0 {
+			n++
+			name := fmt.Sprintf("AliasKind%d", n)
+			pre := fmt.Sprintf("ALIAS_KIND%d_", n)
+			f.Enums = append(f.Enums, &gen.Enum{Name: name, Comment: name + " has aliases.", AllowAlias: true, Values: []*gen.EnumValue{
+				{Name: pre + "UNSPECIFIED", Number: 0, Comment: "Zero."},
+				{Name: pre + "ONE", Number: 1, Comment: "One."},
+				{Name: pre + "UNO", Number: 1, Comment: "One again."},
+				{Name: pre + "EIN", Number: 1, Comment: "And again."},
+				{Name: pre + "TWO", Number: 2, Comment: "Two."},
+				{Name: pre + "DOS", Number: 2, Comment: "Two again."},
+			}})
+		}
+	}
 	return s, newWSView(s)
 }
 
@@ -134,6 +152,18 @@ func c02Do(c *core.C, idx int, race bool) {
 	// an edited copy for breaking; an unformatted copy for format
 	s2 := s.Clone()
 	c11BreakingEdits(c, s2)
+	// one alias of every aliased number gets a new name: the previous name is gone, the number still has several
+	for _, f := range s2.AllFiles() {
+		for _, e := range f.Enums {
+			if e.AllowAlias && strings.HasPrefix(e.Name, "AliasKind") {
+				for _, v := range e.Values {
+					if strings.HasSuffix(v.Name, "_UNO") || strings.HasSuffix(v.Name, "_DOS") {
+						v.Name += "_RENAMED"
+					}
+				}
+			}
+		}
+	}
 	v2 := newWSView(s2)
 	ws2 := filepath.Join(base, "ws2")
 	run.WriteTree(ws2, s2.WorkspaceFiles(v2.R, gen.WorkspaceOpts{Version: "v2", Lint: lintCfg, Breaking: breakingCfg}))
